@@ -21,8 +21,11 @@ RULE = ('(a) All ordered pairs of the known protocol numbers (369 on the '
         'unchanged tree): six real calls per pair (ConnectionContext '
         'earlier/earlier_eq/later/later_eq, utility.protocol_earlier/'
         '_earlier_eq) against rank = index of the first record carrying the '
-        'number; the axioms (irreflexive, antisymmetric, total, converse, '
-        'eq = strict-or-equal, transitive over all triples) are checked a '
+        'number, on a fresh context per left operand AND on one context that '
+        'is never replaced and takes every number in turn by assignment to '
+        'protocol_version; the axioms (irreflexive, antisymmetric, total, '
+        'converse, eq = strict-or-equal, transitive over all triples) are '
+        'checked a '
         'second time on the matrix of observed results without the rank; '
         'ordinary numbers must be numerically ordered along the record list, '
         'PRE-flagged ones among themselves, each PRE-flagged number strictly '
@@ -37,22 +40,60 @@ RULE = ('(a) All ordered pairs of the known protocol numbers (369 on the '
         '> all | existing | new PRE-flagged; supported or not; id shaped '
         'like a release or like a snapshot), append a record with the number '
         'of a seed-chosen record, insert a supported release-shaped record '
-        'mid-list at two fixed anchors, initglobals(True), initglobals(False), '
+        'mid-list at two fixed anchors; list an existing id again at the end '
+        '(a supported release S: same values | supported flag flipped | a '
+        'new number; an unsupported pre-release U: flag flipped | a new '
+        'number), replace the record of S / of U in place by one with the '
+        'flag flipped, remove the last record and append a new one (same '
+        'record count); initglobals(True), initglobals(False), '
         'add an entry to SUPPORTED_MINECRAFT_VERSIONS then initglobals()}; '
+        'thorough: histories of 5 actions are those whose first four are '
+        'appends / inserts / re-initialisations (<= 4: the full alphabet); '
         'states deduplicated on (records, contents of the seven derived '
         'tables); every re-initialisation is judged, and repeated once to '
         'see that nothing changes when it ends a history of <= 4 actions '
         '(longer ones: only through histories ending init, init, which are '
         'judged against the projection); a history is judged at '
         'its last step, so the last level only applies the three '
-        're-initialising actions); the search stops at the first level that '
-        'contains a violation.  A history is non-trivial when it contains an '
+        're-initialising actions).  Judged after initglobals(True): the '
+        'seven tables against the literal projection of the records (every '
+        'record counts: an id listed again as supported IS supported, from '
+        'the position of its first supported listing; first occurrence of a '
+        'repeated entry kept); then, on the touched and boundary numbers, '
+        'the six pair predicates and in_range on fresh contexts and '
+        'minecraft.utility against the order of the rebuilt list, and the '
+        'same five ConnectionContext predicates on LONG-LIVED contexts: for '
+        'every intermediate state k of the history (start, after each '
+        'action) one generation of contexts created and used (all five '
+        'predicates once) in state k, one generation created at the start '
+        'and used in every state, one created at the start for another '
+        'version, used, and re-targeted by assignment after the rebuild; '
+        'each must answer as the rebuilt list says.  '
+        'The search stops at the first level that contains a violation; a '
+        'failing history is executed once more alone by real calls from a '
+        'fresh rebuild, and reported as such (or, if it only fails after '
+        'the histories expanded before it in the same worker, together '
+        'with them).  A history is non-trivial when it contains an '
         'edit before its final re-initialisation; histories are distinct by '
         'construction.')
 ASSUMPTIONS = [
-    'the version id strings used for run-time extension are new (no id is '
-    'ever given two different protocol numbers; the statement does not say '
-    'which would win)',
+    'the ids of NEW run-time records are new; an existing id is listed '
+    'again only by the re-listing actions',
+    'an id listed with two different protocol numbers: a names map can hold '
+    'only one of them and the statement does not say which, nor whether the '
+    'numbers lists follow the records or the map in that case.  Judged '
+    'then (relaxed rule): the id is in the map at the position of its '
+    'first (supported) listing with ONE of the listed numbers; '
+    'KNOWN/SUPPORTED/RELEASE_PROTOCOL_VERSIONS equal the projection of the '
+    'records or the projection of the observed names map they are '
+    'documented to follow; PROTOCOL_VERSION_INDICES enumerates the observed '
+    'KNOWN_PROTOCOL_VERSIONS, RELEASE_MINECRAFT_VERSIONS filters the '
+    'observed SUPPORTED_MINECRAFT_VERSIONS, and the predicates are judged '
+    'against the observed KNOWN_PROTOCOL_VERSIONS.  (On the unchanged tree '
+    'the maps keep the LAST listed number, KNOWN_PROTOCOL_VERSIONS keeps '
+    'every listed number, SUPPORTED_PROTOCOL_VERSIONS follows the map.)  '
+    'Listings that differ only in the supported flag are NOT open: the '
+    'supported tables are the projection of the records flagged supported',
     'after initglobals(False) only SUPPORTED_PROTOCOL_VERSIONS, '
     'RELEASE_MINECRAFT_VERSIONS and RELEASE_PROTOCOL_VERSIONS are judged '
     '(against the current SUPPORTED_MINECRAFT_VERSIONS, which must be left '
@@ -63,7 +104,14 @@ ASSUMPTIONS = [
     'subset; the thorough tier makes the real calls for all triples',
     'the module state that matters to initglobals is the record list and '
     'the seven containers (these are what is snapshotted, restored in place '
-    'and used, through a 64-bit value hash, to identify a state)',
+    'and used, through a 64-bit value hash, to identify a state); what else '
+    'an implementation may remember between calls is brought to a defined '
+    'value by one initglobals(True) on the unextended records at the start '
+    'of every worker task and of every replay',
+    'a long-lived ConnectionContext can only remember what it saw when it '
+    'was created or used: an observer of an earlier state of a history is '
+    'made by restoring that state in place, creating the context, calling '
+    'its five predicates once, and going on',
 ]
 
 PRE = 1 << 30
@@ -78,6 +126,7 @@ TABLES = ('KNOWN_MINECRAFT_VERSIONS', 'KNOWN_PROTOCOL_VERSIONS',
 T_IDX = dict((n, i + 1) for i, n in enumerate(TABLES))   # slot in a snapshot
 UNORDERED = ('PROTOCOL_VERSION_INDICES',)   # a plain map: order is not judged
 TWICE_UP_TO = 4           # explicit second initglobals call after histories <= 4
+FULL_ALPHABET_UP_TO = 4   # longer histories: round-1 alphabet before the end
 MAX_PER_TASK = 3          # violations recorded per triple task (all counted)
 
 
@@ -226,8 +275,11 @@ _PROJ = [None, None]
 
 
 def project(records):
-    """Expected content of all seven tables; None if some id is given two
-    different (protocol, supported) values (not defined by the statement)."""
+    """Expected content of all seven tables, literally: every record counts,
+    a table keeps the first occurrence of a repeated entry.  Two extra keys
+    describe where a MAP cannot hold the literal projection because an id is
+    listed with several numbers: 'amb_known' (among all records) and
+    'amb_sup' (among the supported records), id -> listed numbers."""
     if _PROJ[0] is not None and _PROJ[0] == records:
         return _PROJ[1]
     _PROJ[0], _PROJ[1] = records, _project(records)
@@ -235,23 +287,37 @@ def project(records):
 
 
 def _project(records):
-    byid = {}
-    known, sup = [], []
+    ids, listed, listed_sup = [], {}, {}
+    sup_ids = []
     for r in records:
         i, p, s = r[0], r[1], bool(r[2])
-        if i in byid:
-            if byid[i] != (p, s):
-                return None
-            continue
-        byid[i] = (p, s)
-        known.append((i, p))
+        if i not in listed:
+            listed[i] = []
+            ids.append(i)
+        if p not in listed[i]:
+            listed[i].append(p)
         if s:
-            sup.append((i, p))
-    kp = dedup(p for _, p in known)
+            if i not in listed_sup:
+                listed_sup[i] = []
+                sup_ids.append(i)
+            if p not in listed_sup[i]:
+                listed_sup[i].append(p)
+    known = [(i, listed[i][0]) for i in ids]
+    sup = [(i, listed_sup[i][0]) for i in sup_ids]
+    kp = dedup(r[1] for r in records)
     exp = {'KNOWN_MINECRAFT_VERSIONS': known, 'KNOWN_PROTOCOL_VERSIONS': kp,
            'PROTOCOL_VERSION_INDICES': [(p, k) for k, p in enumerate(kp)],
-           'SUPPORTED_MINECRAFT_VERSIONS': sup}
-    exp.update(project_supported(sup))
+           'SUPPORTED_MINECRAFT_VERSIONS': sup,
+           'SUPPORTED_PROTOCOL_VERSIONS': dedup(r[1] for r in records
+                                                if r[2]),
+           'RELEASE_MINECRAFT_VERSIONS': [(i, p) for (i, p) in sup
+                                          if is_release(i)],
+           'RELEASE_PROTOCOL_VERSIONS': dedup(r[1] for r in records
+                                              if r[2] and is_release(r[0])),
+           'amb_known': dict((i, v) for i, v in listed.items()
+                             if len(v) > 1),
+           'amb_sup': dict((i, v) for i, v in listed_sup.items()
+                           if len(v) > 1)}
     return exp
 
 
@@ -285,6 +351,8 @@ def diff_text(name, got, exp):
 
 
 def table_failures(snap, exp, names):
+    if exp.get('amb_known') or exp.get('amb_sup'):
+        return relaxed_failures(snap, exp, names)
     out = []
     for n in names:
         got = snap[T_IDX[n]]
@@ -296,6 +364,77 @@ def table_failures(snap, exp, names):
             out.append(('table %s' % n, '%s is not the order-preserving '
                         'duplicate-free projection of its source: %s'
                         % (n, diff_text(n, got, exp[n]))))
+    return out
+
+
+def names_ok(got, want, amb):
+    """A names map: the ids in order of first listing; the number is the
+    listed one, any of the listed ones for an id in amb."""
+    if len(got) != len(want):
+        return False
+    for (gi, gp), (wi, wp) in zip(got, want):
+        if gi != wi:
+            return False
+        if gi in amb:
+            if gp not in amb[gi]:
+                return False
+        elif gp != wp:
+            return False
+    return True
+
+
+def relaxed_failures(snap, exp, names):
+    """Some id is listed with several numbers.  A map holds one number per
+    id and the statement does not say which: the id must be there, where its
+    first (supported) listing is, with one of the listed numbers; a numbers
+    list may be the projection of the records or of the observed names map
+    it is documented to follow; the index map and the release names must
+    follow the observed tables they are derived from."""
+    ak, asup = exp['amb_known'], exp['amb_sup']
+    why = (' (relaxed rule: %s listed with several numbers)'
+           % ', '.join('%r: %s' % (i, [fmt(p) for p in v])
+                       for i, v in sorted(list(ak.items())
+                                          + list(asup.items()))[:3]))
+    g = dict((n, list(snap[T_IDX[n]])) for n in TABLES)
+    ok = {}
+    ok['KNOWN_MINECRAFT_VERSIONS'] = names_ok(
+        g['KNOWN_MINECRAFT_VERSIONS'], exp['KNOWN_MINECRAFT_VERSIONS'], ak)
+    ok['SUPPORTED_MINECRAFT_VERSIONS'] = names_ok(
+        g['SUPPORTED_MINECRAFT_VERSIONS'],
+        exp['SUPPORTED_MINECRAFT_VERSIONS'], asup)
+    alt = {
+        'KNOWN_PROTOCOL_VERSIONS':
+            dedup(p for _, p in g['KNOWN_MINECRAFT_VERSIONS']),
+        'SUPPORTED_PROTOCOL_VERSIONS':
+            dedup(p for _, p in g['SUPPORTED_MINECRAFT_VERSIONS']),
+        'RELEASE_PROTOCOL_VERSIONS':
+            dedup(p for _, p in g['RELEASE_MINECRAFT_VERSIONS'])}
+    for n in alt:
+        ok[n] = g[n] == exp[n] or g[n] == alt[n]
+    want_idx = [(p, k) for k, p in enumerate(g['KNOWN_PROTOCOL_VERSIONS'])]
+    ok['PROTOCOL_VERSION_INDICES'] = (
+        len(g['PROTOCOL_VERSION_INDICES']) == len(want_idx) and
+        dict(g['PROTOCOL_VERSION_INDICES']) == dict(want_idx))
+    want_rel = [(i, p) for (i, p) in g['SUPPORTED_MINECRAFT_VERSIONS']
+                if is_release(i)]
+    ok['RELEASE_MINECRAFT_VERSIONS'] = \
+        g['RELEASE_MINECRAFT_VERSIONS'] == want_rel
+    ref = dict(exp)
+    for n, amb in (('KNOWN_MINECRAFT_VERSIONS', ak),
+                   ('SUPPORTED_MINECRAFT_VERSIONS', asup)):
+        # (for the message: an admissible number is not a difference)
+        ref[n] = [(wi, gp if k < len(g[n]) and g[n][k][0] == wi and wi in amb
+                   and gp in amb[wi] else wp)
+                  for k, ((wi, wp), (_, gp)) in enumerate(
+                      zip(exp[n], g[n] + [(None, None)] * len(exp[n])))]
+    ref['PROTOCOL_VERSION_INDICES'] = want_idx
+    ref['RELEASE_MINECRAFT_VERSIONS'] = want_rel
+    out = []
+    for n in names:
+        if not ok[n]:
+            out.append(('table %s' % n, '%s is not the order-preserving '
+                        'duplicate-free projection of its source: %s%s'
+                        % (n, diff_text(n, g[n], ref[n]), why)))
     return out
 
 
@@ -325,7 +464,7 @@ def pair_observe(e, a, b):
     return tuple(got)
 
 
-def pair_failures(e, rank, a, b):
+def pair_failures(e, rank, a, b, unit='record #'):
     got = pair_observe(e, a, b)
     exp = pair_expect(rank[a], rank[b])
     out = []
@@ -338,9 +477,10 @@ def pair_failures(e, rank, a, b):
                         % (fmt(a), name.split('.')[1], fmt(b)))
             out.append(('%s' % name.split('.')[1] if not
                         name.startswith('utility') else name,
-                        '%s = %r, expected %r: %s is record #%d and %s is '
-                        'record #%d of the version list'
-                        % (call, g, x, fmt(a), rank[a], fmt(b), rank[b])))
+                        '%s = %r, expected %r: %s is %s%d and %s is '
+                        '%s%d of the version list'
+                        % (call, g, x, fmt(a), unit, rank[a], fmt(b), unit,
+                           rank[b])))
     return out
 
 
@@ -364,9 +504,9 @@ def check_base_tables(ctx, e):
     """The tables as left by `import minecraft`."""
     snap = e.snapshot()
     exp = project(snap[0])
-    if exp is None:
-        ctx.cls('base records: an id with two meanings (tables not judged)')
-        return []
+    if exp['amb_known']:
+        ctx.cls('base records: an id listed with several numbers (relaxed '
+                'rule)')
     fails = table_failures(snap, exp, TABLES) + e.identity_failures()
     for label, text in fails:
         ctx.violation('base %s' % label, 'after import: ' + text,
@@ -445,6 +585,64 @@ def check_pair(ctx, e, rank, a, b):
     return len(fails)
 
 
+def check_reused(ctx, e, rank, prev, a, b):
+    """A context created for prev and used, then protocol_version = a."""
+    c = e.CC(protocol_version=prev)
+    exercise(c, prev)
+    c.protocol_version = a
+    want = pair_expect(rank[a], rank[b])[:4]
+    got = []
+    for pn in CTX_PREDS:
+        try:
+            got.append(bool(getattr(c, pn)(b)))
+        except Exception as x:
+            got.append('raised %s(%s)' % (type(x).__name__, x))
+    if tuple(got) != want:
+        ctx.violation(
+            'reused-context %s %s' % (fmt(a), fmt(b)),
+            'a ConnectionContext created for %s and used, then assigned '
+            'protocol_version = %s: earlier/earlier_eq/later/later_eq(%s) = '
+            '%r, expected %r (%s is record #%d, %s record #%d)'
+            % (fmt(prev), fmt(a), fmt(b), got, list(want), fmt(a), rank[a],
+               fmt(b), rank[b]),
+            {'op': 'reuse', 'prev': prev, 'a': a, 'b': b})
+        return 1
+    return 0
+
+
+def walk_reused(ctx, e, K, rank, a, b):
+    """The same with the whole walk: one context created for the last known
+    number, used, then assigned every known number in list order up to a
+    (asked about every known number at each stop)."""
+    c = e.CC(protocol_version=K[-1])
+    exercise(c, K[-1])
+    for v in K:
+        c.protocol_version = v
+        if v == a:
+            break
+        for w in K:
+            try:
+                c.protocol_earlier(w), c.protocol_earlier_eq(w)
+                c.protocol_later(w), c.protocol_later_eq(w)
+            except Exception:
+                pass
+    want = pair_expect(rank[a], rank[b])[:4]
+    got = []
+    for pn in CTX_PREDS:
+        try:
+            got.append(bool(getattr(c, pn)(b)))
+        except Exception as x:
+            got.append('raised %s(%s)' % (type(x).__name__, x))
+    if tuple(got) != want:
+        ctx.violation(
+            'reused-context-walk %s %s' % (fmt(a), fmt(b)),
+            'one ConnectionContext assigned every known protocol number in '
+            'turn (and asked about all of them at each): at protocol_version '
+            '= %s, earlier/earlier_eq/later/later_eq(%s) = %r, expected %r'
+            % (fmt(a), fmt(b), got, list(want)),
+            {'op': 'reuse-walk', 'a': a, 'b': b})
+
+
 def pairs_all(ctx, e, K, rank):
     """All ordered pairs; returns the observed strict matrix as bit rows."""
     CC, ue, uee = e.CC, e.U.protocol_earlier, e.U.protocol_earlier_eq
@@ -454,10 +652,20 @@ def pairs_all(ctx, e, K, rank):
     rows_later = [0] * len(K)
     rows_later_eq = [0] * len(K)
     outcomes = {}
+    # one more context that is never replaced: it takes every version in
+    # turn by assignment to protocol_version (as Connection does with its
+    # own context) and must answer like the fresh one
+    walker = CC(protocol_version=K[-1])
+    exercise(walker, K[-1])
+    prev = K[-1]
+    w1, w2, w3, w4 = (walker.protocol_earlier, walker.protocol_earlier_eq,
+                      walker.protocol_later, walker.protocol_later_eq)
+    n_reused_bad = 0
     for a in K:
         c = CC(protocol_version=a)
         f1, f2, f3, f4 = (c.protocol_earlier, c.protocol_earlier_eq,
                           c.protocol_later, c.protocol_later_eq)
+        walker.protocol_version = a
         ra, ja = rank[a], pos[a]
         for b in K:
             rb = rank[b]
@@ -465,6 +673,15 @@ def pairs_all(ctx, e, K, rank):
                 got = (f1(b), f2(b), f3(b), f4(b), ue(a, b), uee(a, b))
             except Exception:
                 got = None
+            try:
+                reused = (w1(b), w2(b), w3(b), w4(b))
+            except Exception:
+                reused = None
+            if reused != (ra < rb, ra <= rb, ra > rb, ra >= rb):
+                n_reused_bad += 1
+                if n_reused_bad <= MAX_PER_TASK and \
+                        not check_reused(ctx, e, rank, prev, a, b):
+                    walk_reused(ctx, e, K, rank, a, b)
             if got != (ra < rb, ra <= rb, ra > rb, ra >= rb, ra < rb,
                        ra <= rb):
                 check_pair(ctx, e, rank, a, b)
@@ -479,9 +696,11 @@ def pairs_all(ctx, e, K, rank):
             if got[3] is True or got[3] == 1:
                 rows_later_eq[ja] |= bit
             outcomes[got[:4]] = outcomes.get(got[:4], 0) + 1
+        prev = a
     n = len(K) * len(K)
     ctx.count(n)
     ctx.note_distinct(n)
+    ctx.cls('pairs asked of one context re-targeted by assignment', n)
     for got, cnt in outcomes.items():
         ctx.outcome('pair earlier,earlier_eq,later,later_eq=%s'
                     % ','.join(str(g)[:12] for g in got), cnt)
@@ -754,14 +973,33 @@ class Plan(object):
                     break
             else:
                 raise ToolError('no mid-list gap for %s inserts' % kind)
+        # ids that are listed again / replaced in place: S = the middle one
+        # of the supported release-shaped records, U = the last unsupported
+        # record whose number no supported record carries
+        rel_sup = [r for r in base if r[2] and is_release(r[0])]
+        unsup = [r for r in base if not r[2] and r[1] not in sup_numbers]
+        if not rel_sup or not unsup:
+            raise ToolError('no target records for re-listing')
+        self.target = {'S': rel_sup[len(rel_sup) // 2][0],
+                       'U': unsup[-1][0]}
+        for t in self.target.values():
+            if sum(1 for r in base if r[0] == t) != 1:
+                raise ToolError('re-listing target %r is not listed exactly '
+                                'once in the base records' % t)
         acts = []
         for num in ('ord', 'dup', 'pre'):
             for sup in ('sup', 'unsup'):
                 for shape in ('rel', 'snap'):
                     acts.append('app:%s:%s:%s' % (num, sup, shape))
         acts += ['app:seeddup:sup:snap', 'ins:ord', 'ins:pre']
+        self.old_actions = list(acts)
+        # round 3: an id listed again, a record replaced in place, a record
+        # removed and another added (the record count stays the same)
+        acts += ['rel:S:same', 'rel:S:flip', 'rel:S:num',
+                 'rel:U:flip', 'rel:U:num', 'rep:S', 'rep:U', 'swap']
         self.inits = ['initT', 'initF', 'edit+init']
         self.actions = acts + self.inits
+        self.old = set(self.old_actions + self.inits)
         pre_base = [p for p in K if p & PRE]
         ords = [p for p in K if not p & PRE]
         b = set([K[0], K[1], K[-1], K[-2], max(ords), max(pre_base),
@@ -770,6 +1008,8 @@ class Plan(object):
         b.update(K[max(0, k0 - 1):k0 + 1])
         for kind in ('ord', 'pre'):
             b.update(self.anchor[kind][1:])
+        for t in self.target.values():
+            b.update(r[1] for r in base if r[0] == t)
         self.boundary = [p for p in K if p in b]
 
 
@@ -783,14 +1023,18 @@ def plan(seed):
 
 
 def new_id(P, records, shape):
-    k = len(records) - P.base_len + 1
-    if shape == 'rel':
-        s = '9.9' if k == 1 else '9.9.%d' % k
-    else:
-        s = '99w%02da' % k
-    if s in P.base_ids or any(r[0] == s for r in records):
-        raise ToolError('generated id %r is not new' % s)
-    return s
+    """A version id that no record carries (the first free one, counting
+    from the number of records added so far)."""
+    k = max(1, len(records) - P.base_len + 1)
+    used = set(r[0] for r in records)
+    while True:
+        if shape == 'rel':
+            s = '9.9' if k == 1 else '9.9.%d' % k
+        else:
+            s = '99w%02da' % k
+        if s not in P.base_ids and s not in used:
+            return s
+        k += 1
 
 
 def mutate(e, P, name):
@@ -817,6 +1061,26 @@ def mutate(e, P, name):
             raise ToolError('insert gap exhausted')
         at = [i for i, r in enumerate(records) if r[0] == aid][0]
         records.insert(at, e.Version(new_id(P, records, 'rel'), p, True))
+    elif parts[0] in ('rel', 'rep'):
+        tid = P.target[parts[1]]
+        at = [i for i, r in enumerate(records) if r[0] == tid]
+        if not at:
+            raise ToolError('target record %r is gone' % tid)
+        first = records[at[0]]
+        if parts[0] == 'rep':      # replaced in place, support flag flipped
+            records[at[0]:at[0] + 1] = [e.Version(tid, first[1],
+                                                  not first[2])]
+        elif parts[2] == 'same':
+            records.append(e.Version(tid, first[1], bool(first[2])))
+        elif parts[2] == 'flip':
+            records.append(e.Version(tid, first[1], not first[2]))
+        else:                      # 'num': listed again with a new number
+            p = max(r[1] for r in records if not r[1] & PRE) + 1
+            records.append(e.Version(tid, p, bool(first[2])))
+    elif name == 'swap':           # one record removed, another one added
+        del records[-1]
+        p = max(r[1] for r in records if not r[1] & PRE) + 1
+        records.append(e.Version(new_id(P, records, 'rel'), p, True))
     elif name == 'edit+init':
         S = M.SUPPORTED_MINECRAFT_VERSIONS
         k = 1 + sum(1 for i in S if i.startswith('9.8.'))
@@ -834,14 +1098,141 @@ def call_init(e, name):
         e.M.initglobals()
 
 
-def predicates_after(e, P, records):
-    """Pair predicates (and in_range) on the extended list."""
-    K, rank, _ = first_ranks_fast(records)
+def touched_numbers(P, records):
+    """Numbers worth re-checking on an extended list: those of the records
+    that are not base records, then the fixed boundary numbers."""
     base = set(P.base_K)
+    K = dedup(r[1] for r in records)
     new = [p for p in K if p not in base]
-    added_ids = [r for r in records if r[0] not in P.base_ids]
-    touched = dedup(new + [r[1] for r in added_ids])
-    nums = dedup(touched + P.boundary)
+    added = [r[1] for r in records if r[0] not in P.base_ids]
+    touched = dedup(new + added)
+    return touched, dedup(touched + P.boundary)
+
+
+CTX_PREDS = ('protocol_earlier', 'protocol_earlier_eq', 'protocol_later',
+             'protocol_later_eq')
+
+
+def exercise(c, a):
+    """One call of every predicate (a context has to be USED to count as a
+    long-lived observer); the results are judged elsewhere."""
+    try:
+        c.protocol_earlier(a)
+        c.protocol_earlier_eq(a)
+        c.protocol_later(a)
+        c.protocol_later_eq(a)
+        c.protocol_in_range(a, a)
+    except Exception:
+        pass
+
+
+OBS_ALL = 'made before the first step and used after every step'
+OBS_RE = ('made before the first step for another version and used; '
+          'protocol_version assigned after the rebuild')
+
+
+def make_observers(e, P, prefix, records):
+    """Long-lived ConnectionContexts for the history whose intermediate
+    states are `prefix` (snapshots: start, after action 1, ...).  Generation
+    k: created and used in state k only; OBS_ALL: created at the start, used
+    in every state; OBS_RE: created at the start for ANOTHER version and
+    used, re-targeted by assignment when queried.  A state is re-created by
+    restoring its snapshot in place (a context can only remember what it
+    saw in the tables when it was used).  Leaves the LAST prefix state."""
+    CC = e.CC
+    _, nums = touched_numbers(P, records)
+    gens, everywhere, retarget = [], {}, {}
+    for k, S in enumerate(prefix):
+        e.restore(S)
+        known = set(p for p, _ in S[T_IDX['PROTOCOL_VERSION_INDICES']])
+        usable = [a for a in nums if a in known]
+        g = {}
+        for a in usable:
+            g[a] = c = CC(protocol_version=a)
+            exercise(c, a)
+        gens.append(('at-step-%d' % k, 'made and used after step %d of %d'
+                     % (k, len(prefix) - 1), g))
+        if k == 0:
+            for j, a in enumerate(usable):
+                everywhere[a] = CC(protocol_version=a)
+                other = usable[(j + 1) % len(usable)]
+                retarget[a] = c = CC(protocol_version=other)
+                exercise(c, other)
+        for a in usable:
+            if a in everywhere:
+                exercise(everywhere[a], a)
+    gens.append(('all-steps', OBS_ALL, everywhere))
+    gens.append(('reassigned', OBS_RE, retarget))
+    return gens
+
+
+def observer_failures(e, rank, nums, small, gens, out, unit):
+    """The contexts of make_observers, asked after the rebuild."""
+    n_obs = 0
+    for tag, label, g in gens:
+        for a in nums:
+            c = g.get(a)
+            if c is None or a not in rank:
+                continue
+            if tag == 'reassigned':
+                c.protocol_version = a
+            n_obs += 1
+            ra = rank[a]
+            f = [getattr(c, n) for n in CTX_PREDS]
+            for b in nums:
+                rb = rank[b]
+                want = (ra < rb, ra <= rb, ra > rb, ra >= rb)
+                try:
+                    got = (bool(f[0](b)), bool(f[1](b)), bool(f[2](b)),
+                           bool(f[3](b)))
+                except Exception as x:
+                    got = 'raised %s(%s)' % (type(x).__name__, x)
+                if got == want:
+                    continue
+                for k, pn in enumerate(CTX_PREDS):
+                    if isinstance(got, str) or bool(got[k]) != want[k]:
+                        break
+                fresh = pair_observe(e, a, b)
+                out.append((
+                    'observer[%s] %s %s %s' % (tag, fmt(a), fmt(b), pn),
+                    'a ConnectionContext for %s that was %s says after the '
+                    'rebuild: %s(%s) = %s, expected %r (%s%d, %s%d; a '
+                    'fresh context and minecraft.utility give %r)'
+                    % (fmt(a), label, pn, fmt(b),
+                       got if isinstance(got, str) else got[k], want[k],
+                       unit, ra, unit, rb, fresh)))
+                if len(out) > 6:
+                    return n_obs
+            if a in small:
+                inr = c.protocol_in_range
+                for s_ in small:
+                    for t in small:
+                        want = rank[s_] <= ra < rank[t]
+                        try:
+                            got = inr(s_, t)
+                        except Exception as x:
+                            got = 'raised %s(%s)' % (type(x).__name__, x)
+                        if isinstance(got, str) or bool(got) != want:
+                            out.append((
+                                'observer[%s] in_range %s %s %s'
+                                % (tag, fmt(a), fmt(s_), fmt(t)),
+                                'a ConnectionContext for %s that was %s says '
+                                'after the rebuild: protocol_in_range(%s, %s)'
+                                ' = %r, expected %r'
+                                % (fmt(a), label, fmt(s_), fmt(t), got,
+                                   want)))
+                            if len(out) > 6:
+                                return n_obs
+    return n_obs
+
+
+def predicates_after(e, P, records, rank, unit, gens=()):
+    """Pair predicates (and in_range) on the extended list: fresh contexts
+    and minecraft.utility, then the long-lived contexts `gens`.
+    -> (failures, numbers used, observers asked)"""
+    touched, nums = touched_numbers(P, records)
+    nums = [p for p in nums if p in rank]
+    touched = [p for p in touched if p in rank]
     out = []
     CC, ue, uee = e.CC, e.U.protocol_earlier, e.U.protocol_earlier_eq
     for a in nums:
@@ -858,10 +1249,10 @@ def predicates_after(e, P, records):
             if got != (ra < rb, ra <= rb, ra > rb, ra >= rb, ra < rb,
                        ra <= rb):
                 out += [('pair %s %s %s' % (fmt(a), fmt(b), lab), txt)
-                        for lab, txt in pair_failures(e, rank, a, b)]
+                        for lab, txt in pair_failures(e, rank, a, b, unit)]
                 if len(out) > 6:
-                    return out, len(nums)
-    small = dedup(touched + P.boundary[-3:])
+                    return out, len(nums), 0
+    small = dedup(touched + [p for p in P.boundary[-3:] if p in rank])
     for v in small:
         inr = CC(protocol_version=v).protocol_in_range
         rv = rank[v]
@@ -878,8 +1269,11 @@ def predicates_after(e, P, records):
                         out.append(('in_range %s %s %s'
                                     % (fmt(v), fmt(s), fmt(t)), txt))
                     if len(out) > 6:
-                        return out, len(nums)
-    return out, len(nums)
+                        return out, len(nums), 0
+    n_obs = 0
+    if gens and not out:
+        n_obs = observer_failures(e, rank, nums, set(small), gens, out, unit)
+    return out, len(nums), n_obs
 
 
 def first_ranks_fast(records):
@@ -895,19 +1289,19 @@ def first_ranks_fast(records):
     return order, rank, howmany
 
 
-def judge_init(e, P, name, before, twice=True):
+def judge_init(e, P, name, before, twice=True, gens=()):
     """Failures [(label, text)] of one re-initialisation just performed;
     leaves the module in the state reached by the FIRST call."""
     fails = []
     snap = e.snapshot()
+    relaxed = False
     if snap[0] != before[0]:
         fails.append(('records changed', 'initglobals changed '
                       'KNOWN_MINECRAFT_VERSION_RECORDS (%d records before, %d '
                       'after)' % (len(before[0]), len(snap[0]))))
     if name == 'initT':
         exp = project(snap[0])
-        if exp is None:
-            raise ToolError('harness produced an id with two meanings')
+        relaxed = bool(exp['amb_known'] or exp['amb_sup'])
         fails += table_failures(snap, exp, TABLES)
     else:
         src = before[T_IDX['SUPPORTED_MINECRAFT_VERSIONS']]
@@ -920,13 +1314,22 @@ def judge_init(e, P, name, before, twice=True):
         exp = project_supported(list(src))
         fails += table_failures(snap, exp, sorted(exp))
     fails += e.identity_failures()
-    n_nums = 0
+    info = {'nums': 0, 'observers': 0, 'relaxed': relaxed}
     if name == 'initT' and not fails:
-        pf, n_nums = predicates_after(e, P, list(snap[0]))
+        if relaxed:
+            # the order is the observed (admissible) number list
+            rank = dict((p, k) for k, p in enumerate(
+                snap[T_IDX['KNOWN_PROTOCOL_VERSIONS']]))
+            unit = 'number #'
+        else:
+            rank = first_ranks_fast(snap[0])[1]
+            unit = 'record #'
+        pf, info['nums'], info['observers'] = predicates_after(
+            e, P, list(snap[0]), rank, unit, gens)
         fails += pf
     # idempotence: the same call once more changes nothing
     if not twice:
-        return fails, snap, n_nums
+        return fails, snap, info
     try:
         call_init(e, 'initF' if name == 'edit+init' else name)
         again = e.snapshot()
@@ -942,11 +1345,30 @@ def judge_init(e, P, name, before, twice=True):
                       'changed %s' % ', '.join(which)))
     if again != snap:
         e.restore(snap)
-    return fails, snap, n_nums
+    return fails, snap, info
 
 
-def step(ctx, e, P, hist, name, judge=True):
-    """Apply one action on the live module.  -> (violated, snapshot|None)"""
+NEW_FAMILIES = {'rel': 'an id listed again', 'rep': 'a record replaced in '
+                'place', 'swap': 'a record removed and another added'}
+
+
+def family(a):
+    parts = a.split(':')
+    if parts[0] == 'rel':
+        return 'an id listed again (%s)' % {
+            'same': 'same values', 'flip': 'supported flag differs',
+            'num': 'another number'}[parts[2]]
+    return NEW_FAMILIES.get(parts[0])
+
+
+def step(ctx, e, P, hist, name, judge=True, prefix=None, hold=None):
+    """Apply one action on the live module.  -> (violated, snapshot|None)
+    prefix: snapshots of the states the history went through (start, after
+    each action of hist); given, long-lived contexts are created in those
+    states and asked again after an initglobals(True).  hold: a list that
+    receives (key, what, case) instead of ctx.violation."""
+    emit = ctx.violation if hold is None else \
+        (lambda k, w, c: hold.append((k, w, c)))
     mutate(e, P, name)
     if name not in P.inits:
         return False, None
@@ -954,18 +1376,22 @@ def step(ctx, e, P, hist, name, judge=True):
         call_init(e, name)
         return False, None
     before = e.snapshot()
+    gens = ()
+    if name == 'initT' and prefix is not None:
+        gens = make_observers(e, P, prefix, list(before[0]))
+        e.restore(before)
     full = tuple(hist) + (name,)
     case = {'op': 'history', 'actions': list(full), 'seed_dup': P.seed_dup}
     try:
         call_init(e, name)
     except Exception as x:
-        ctx.violation('history %s :: raises' % '/'.join(full),
-                      'after the run-time edits %s, initglobals raised %s(%s)'
-                      % (list(hist), type(x).__name__, x), case)
+        emit('history %s :: raises' % '/'.join(full),
+             'after the run-time edits %s, initglobals raised %s(%s)'
+             % (list(hist), type(x).__name__, x), case)
         ctx.outcome('%s raises' % name)
         return True, None
     twice = len(full) <= TWICE_UP_TO
-    fails, snap, n_nums = judge_init(e, P, name, before, twice)
+    fails, snap, info = judge_init(e, P, name, before, twice, gens)
     if twice:
         ctx.cls('re-initialisations repeated for idempotence')
     ctx.count()
@@ -975,11 +1401,10 @@ def step(ctx, e, P, hist, name, judge=True):
         ctx.note_distinct(1)
     if fails:
         ctx.outcome('%s violates' % name)
-        ctx.violation(
-            'history %s :: %s' % ('/'.join(full), fails[0][0]),
-            'history %s: after the last re-initialisation: %s'
-            % (' -> '.join(full), ' || '.join(t for _, t in fails[:4])),
-            case)
+        emit('history %s :: %s' % ('/'.join(full), fails[0][0]),
+             'history %s: after the last re-initialisation: %s'
+             % (' -> '.join(full), ' || '.join(t for _, t in fails[:4])),
+             case)
         return True, snap
     ctx.outcome('%s ok' % name)
     if name == 'initT':
@@ -988,8 +1413,26 @@ def step(ctx, e, P, hist, name, judge=True):
         if len(snap[T_IDX['SUPPORTED_MINECRAFT_VERSIONS']]) != \
                 len(before[T_IDX['SUPPORTED_MINECRAFT_VERSIONS']]):
             ctx.cls('initT changed the number of supported ids')
-        if n_nums:
-            ctx.cls('initT: predicate pairs re-checked', n_nums * n_nums)
+        if info['nums']:
+            ctx.cls('initT: predicate pairs re-checked',
+                    info['nums'] * info['nums'])
+        if info['observers']:
+            ctx.cls('initT: long-lived contexts asked again after the '
+                    'rebuild', info['observers'])
+            if before[T_IDX['PROTOCOL_VERSION_INDICES']] != \
+                    snap[T_IDX['PROTOCOL_VERSION_INDICES']]:
+                ctx.cls('initT with long-lived contexts: the rebuild changed '
+                        'the index map')
+                old = dict(before[T_IDX['PROTOCOL_VERSION_INDICES']])
+                if any(old.get(p, k) != k for p, k in
+                       snap[T_IDX['PROTOCOL_VERSION_INDICES']]):
+                    ctx.cls('initT with long-lived contexts: the rebuild '
+                            'moved the index of a number that was known')
+        if info['relaxed']:
+            ctx.cls('initT judged by the relaxed rule (an id listed with '
+                    'several numbers)')
+        for fam in sorted(set(f for f in map(family, full) if f)):
+            ctx.cls('initT after %s' % fam)
     else:
         stale = project(snap[0])       # cached per record list
         if stale and list(snap[T_IDX['SUPPORTED_MINECRAFT_VERSIONS']]) != \
@@ -1002,16 +1445,49 @@ def step(ctx, e, P, hist, name, judge=True):
     return False, snap
 
 
-def w_expand(ctx, task):
+def resync(e):
+    """Whatever initglobals may remember from one call to the next (nothing
+    on the unchanged tree) is brought to what a rebuild from the unextended
+    records leaves, so that a history starts like after a fresh import."""
+    e.restore(e.base)
+    try:
+        e.M.initglobals(True)
+    except Exception:
+        pass
+    e.restore(e.base)
+
+
+def confirm(ctx, e, P, full):
+    """Re-execute a failing history alone, from a resync, by real calls only
+    (no restored intermediate states).  -> held violations [(key, what,
+    case)]; empty if it passes this way."""
+    held = []
+    resync(e)
+    prefix, hist = [e.base], ()
+    for a in full[:-1]:
+        try:
+            step(ctx, e, P, hist, a, judge=False)
+        except Exception:
+            return held
+        hist += (a,)
+        prefix.append(e.snapshot())
+    step(ctx.fork(), e, P, hist, full[-1], prefix=prefix, hold=held)
+    return held
+
+
+def w_expand(ctx, task, confirming=True):
     """Expand a sorted run of histories (neighbours share prefixes, whose
-    states are kept on a stack instead of being replayed again)."""
+    states are kept on a stack instead of being replayed again).  A failing
+    history is executed once more alone (confirm): the violation reported is
+    the one that `replay` reproduces."""
     hists, last = task
     e = env()
     P = plan(ctx.seed)
     succ = []
     stack = []                     # (action, snapshot after it)
     try:
-        for hist in hists:
+        resync(e)
+        for i, hist in enumerate(hists):
             k = 0
             while k < len(stack) and k < len(hist) and \
                     stack[k][0] == hist[k]:
@@ -1022,16 +1498,49 @@ def w_expand(ctx, task):
                 step(ctx, e, P, (), a, judge=False)
                 stack.append((a, e.snapshot()))
             S = stack[-1][1] if stack else e.base
+            prefix = [e.base] + [sn for _, sn in stack]
             for a in (P.inits if last else P.actions):
                 ctx.transitions += 1
-                bad, snap = step(ctx, e, P, hist, a)
-                if snap is None:
-                    snap = e.snapshot()
+                held = []
+                bad, snap = step(ctx, e, P, hist, a, prefix=prefix,
+                                 hold=held)
+                if snap is None and a not in P.inits:
+                    # an edit of the records: the tables are those of S
+                    snap = (tuple(e.M.KNOWN_MINECRAFT_VERSION_RECORDS),) + \
+                        S[1:]
+                    edit_only = True
+                else:
+                    edit_only = False
+                    if snap is None:
+                        snap = e.snapshot()
                 c = canon(snap)
                 ctx.state(c)
                 if not bad and not last:
                     succ.append((c, hist + (a,)))
-                e.restore(S)
+                if held:
+                    alone = confirm(ctx, e, P, hist + (a,)) \
+                        if confirming else []
+                    for key, what, case in alone:
+                        ctx.violation(key, what, case)
+                    if not alone:
+                        key, what, case = held[0]
+                        ctx.violation(
+                            key + (' [after other histories]'
+                                   if confirming else ''),
+                            what + ' [this happens when the histories %s '
+                            'were expanded before in the same process; the '
+                            'history executed alone after a fresh rebuild '
+                            'passes: initglobals depends on something '
+                            'besides the records and the tables]'
+                            % ([' -> '.join(h) or '(empty)'
+                                for h in hists[:i]][-3:],),
+                            {'op': 'task', 'last': bool(last),
+                             'hists': [list(h) for h in hists[:i + 1]],
+                             'seed_dup': P.seed_dup})
+                if edit_only:
+                    e.records[:] = S[0]
+                else:
+                    e.restore(S)
     finally:
         e.restore(e.base)
     ctx.extra['succ'] = succ
@@ -1060,17 +1569,36 @@ def part_b(ctx, e):
         done = level
         best = {}
         for c, hist in succ:
-            if c not in seen and (c not in best or hist < best[c]):
-                best[c] = hist
+            # representative of a state: fewest round-3 actions, then least
+            key = (sum(1 for a in hist if a not in P.old), hist)
+            if c not in seen and (c not in best or key < best[c]):
+                best[c] = key
         seen.update(best)
         per_level.append({'level': level, 'expanded': len(frontier),
                           'new_states': len(best) if not last else None})
-        frontier = sorted(best.values())
+        frontier = sorted(h for _, h in best.values())
+        if level + 1 > FULL_ALPHABET_UP_TO:
+            # the longest histories (thorough) keep to the states reached
+            # by appends / inserts / re-initialisations only
+            frontier = sorted(h for n, h in best.values() if n == 0)
+            per_level[-1]['carried_on'] = len(frontier)
         if len(ctx.violations) > before_v:
             ctx.extra['histories_stopped_after_level'] = level
             break
         if not frontier:
             break
+    if not ctx.violations:
+        for label in ('initT: long-lived contexts asked again after the '
+                      'rebuild',
+                      'initT with long-lived contexts: the rebuild moved the '
+                      'index of a number that was known',
+                      'initT after an id listed again (supported flag '
+                      'differs)',
+                      'initT after an id listed again (another number)',
+                      'initT after a record replaced in place',
+                      'initT after a record removed and another added'):
+            if not ctx.classes.get(label):
+                raise ToolError('vacuous: no history of class %r' % label)
     ctx.extra['history_depth_completed'] = done
     ctx.extra['history_levels'] = per_level
     ctx.extra['history_alphabet'] = list(P.actions)
@@ -1145,6 +1673,13 @@ def replay(ctx, case):
                         ctx.violation('axiom pair %s %s' % (fmt(a), fmt(b)),
                                       'order axioms fail on (%s, %s): %r / %r'
                                       % (fmt(a), fmt(b), ab, ba), case)
+        elif op == 'reuse':
+            if all(case[k] in rank for k in ('prev', 'a', 'b')):
+                check_reused(ctx, e, rank, case['prev'], case['a'],
+                             case['b'])
+        elif op == 'reuse-walk':
+            if case['a'] in rank and case['b'] in rank:
+                walk_reused(ctx, e, K, rank, case['a'], case['b'])
         elif op == 'inrange':
             if all(case[k] in rank for k in ('v', 'start', 'end')):
                 report_inrange(ctx, e, rank, case['v'], case['start'],
@@ -1157,12 +1692,21 @@ def replay(ctx, case):
             P = plan(ctx.seed)
             if 'seed_dup' in case:       # recorded under another seed
                 P.seed_dup = case['seed_dup']
-            e.restore(e.base)
+            resync(e)
             hist = ()
+            prefix = [e.base]
             for a in case['actions']:
                 ctx.transitions += 1
-                step(ctx, e, P, hist, a)
+                step(ctx, e, P, hist, a, prefix=list(prefix))
                 hist += (a,)
+                prefix.append(e.snapshot())
+        elif op == 'task':
+            P = plan(ctx.seed)
+            if 'seed_dup' in case:
+                P.seed_dup = case['seed_dup']
+            w_expand(ctx, ([tuple(h) for h in case['hists']], case['last']),
+                     confirming=False)
+            ctx.extra.pop('succ', None)
         else:
             raise ToolError('unknown replay op %r' % op)
     finally:
